@@ -362,11 +362,11 @@ fn scale_event(c: &ScaleEvent, ev: &mut Ev) -> Outcome {
 
 fn run(r: &Run) {
     let t = r.tier;
-    r.prop("pad_waveforms", t.pick(200_000, 5_000_000), wave_case, pad_case);
-    r.prop("wire_blocks", t.pick(3_000, 100_000), block_strategy, block_case);
+    r.prop("pad_waveforms", t.pick(200_000, 30_000_000), wave_case, pad_case);
+    r.prop("wire_blocks", t.pick(3_000, 600_000), block_strategy, block_case);
     let seed = r.seed;
     r.enumerate("isolated_wire_pulse", t.pick(256 * 40, 256 * 2000), move |i, ev| pulse(i, seed, ev));
-    r.prop("whole_event_scale", t.pick(1_500, 50_000), || (hit_event(8), 0u8..3).prop_map(|(mut hits, factor_exp)| {
+    r.prop("whole_event_scale", t.pick(1_500, 200_000), || (hit_event(8), 0u8..3).prop_map(|(mut hits, factor_exp)| {
         for h in &mut hits.wire_hits { h.amp = (h.amp / 10.0).max(1.0); }
         for h in &mut hits.pad_hits { h.amp = (h.amp / 10.0).max(5.0); }
         hits.noise = 0;
